@@ -295,6 +295,8 @@ def match_known(known, pid, sig, script, mm):
             continue
         if "expected_regex" in s and not re.search(s["expected_regex"], mm.get("expected", "")):
             continue
+        if "script_regex" in s and not re.search(s["script_regex"], "\n".join(script)):
+            continue
         return k
     return None
 
@@ -341,6 +343,8 @@ def check_property(pid, tier, seed, replay_only=None):
     known = load_known()
     amplify = 4 if proof_broken else 1
     jobs = []
+    for path in P.get("corpus", []):
+        jobs.append(("corpus:" + path, 0, 0))
     for (suite, scale) in P["suites"]:
         sc = scale * (props.THOROUGH_SCALE if tier == "thorough" else 1) * amplify
         seeds = [seed] if tier == "quick" else [seed + i for i in range(props.THOROUGH_SEEDS)]
@@ -349,8 +353,13 @@ def check_property(pid, tier, seed, replay_only=None):
 
     def run_job(job):
         suite, sc, sd = job
-        lines, hist = gen.generate(suite, sd, sc, tier)
-        mism, nout, crash = execute(lines, "%s_%s_%d" % (pid, suite, sd))
+        if suite.startswith("corpus:"):
+            with open(os.path.join(ROOT, suite[7:])) as f:
+                lines = [l.rstrip("\n") for l in f if l.strip() and not l.startswith("#")]
+            hist = {"corpus:script": 1}
+        else:
+            lines, hist = gen.generate(suite, sd, sc, tier)
+        mism, nout, crash = execute(lines, "%s_%s_%d" % (pid, re.sub(r"[^A-Za-z0-9]+", "_", suite)[-40:], sd))
         out = {"suite": suite, "seed": sd, "lines": lines, "hist": hist, "nout": nout, "crash": crash, "foreign": [], "viol": None,
                "known": []}
         for mm in mism:
